@@ -239,18 +239,22 @@ def specOuts2 (ps : PSub) : List Nat :=
   | none => removeVirtual ps.sg.outputTensors ps.sg.virtualOutputs
   | some pos => pos.filterMap ((removeVirtual ps.sg.outputTensors ps.sg.virtualOutputs)[·]?)
 
-/-- every subgraph output is a written tensor (an original input or an operand of a written operator or of a Placeholder): the
-    writer silently drops any other output (`if tens in self.tensor_map_sg`) -/
-def outsWrittenB (ps : PSub) : Bool := (specOuts2 ps).all (fun g => (Writer.sgSet ps).contains g)
+/-- every subgraph output that is left after the virtual outputs were removed is listed at one of the original output positions (or
+    is written anyway: an original input, an operand of a written operator or of a Placeholder). Since the repair C11-60 the writer
+    puts every remaining output into the tensor table; one that the expanded output list does not name would be a tensor of the file
+    nothing refers to. (Before the repair the clause was the opposite inclusion: a listed output that was not written was dropped.) -/
+def outsListedB (ps : PSub) : Bool :=
+  (Writer.sgOuts ps).all fun g => (specOuts2 ps).contains g || (Writer.tensorSet ps.sg.originalInputs (Writer.sgOps ps) []).contains g
 
 /-- a Placeholder has no operands or intermediates of its own -/
 def placeholdersPlainB (ps : PSub) : Bool :=
   ps.ops.all (fun p => !(p.placeholder && p.ignored) || (p.inputs ++ p.intermediates).all (· == none))
 
-def sgDomainB (ps : PSub) : Bool := outsWrittenB ps && placeholdersPlainB ps
+def sgDomainB (ps : PSub) : Bool := outsListedB ps && placeholdersPlainB ps
 
 /-- the domain of `conforms_write`, as a checker: at least one subgraph is written (otherwise buffer 0 is the `vela_version`
-buffer), every subgraph output is a written tensor, Placeholders have no operands of their own -/
+buffer), every remaining subgraph output is listed at an original output position (or written anyway), Placeholders have no operands
+of their own -/
 def conformsDomainB (d : Desc) : Bool :=
   !(subgraphsToWrite d).isEmpty &&
   match (subgraphsToWrite d).mapM (prepSub d.tensors) with
@@ -262,7 +266,7 @@ def domainClause (d : Desc) : String :=
   if (subgraphsToWrite d).isEmpty then "no-written-subgraph" else
   match (subgraphsToWrite d).mapM (prepSub d.tensors) with
   | .ok subs =>
-    if !subs.all outsWrittenB then "dropped-output"
+    if !subs.all outsListedB then "unlisted-output"
     else if !subs.all placeholdersPlainB then "placeholder-operand" else "in"
   | .error _ => "in"
 
